@@ -74,8 +74,9 @@ ASSUMPTIONS = [
     "issued while the client is disconnected outside that window (the harness logs in first).",
     "A kept call's attempts made while disconnected are invisible to the server: the first visible AddUser in the new "
     "session is accepted as their retry (>= 10 s after the call; due within 50 s after the new login).",
-    "Documented delays: user does not exist -> 600 s; no answer -> 10 s wait + 10 s; judged on frame arrival times at "
-    "the server with a tolerance of 0.06 s (latency differences); a due retry must arrive within delay + 30 s.",
+    "Documented delays: user does not exist -> 600 s; no answer -> 10 s wait + 10 s; judged on the frames the server "
+    "received, timed by the moment the client wrote them to the simulated socket (a tap; arrival adds queueing behind "
+    "other traffic), tolerance 0.06 s (the answer's way back); a due retry must be sent within delay + 30 s.",
     "Promptness: the AddUser / RemoveUser of a transition reaches the server within 0.5 virtual seconds after the later "
     "of (the call, the moment the FIFO worker finished its previous attempt: 10 s after an unanswered one, the login of "
     "the session); the simulated world has no CPU time, only <= 4 ms latency per segment.",
@@ -479,6 +480,8 @@ def judge(run: dict, choice: dict) -> tuple[list, dict]:
         if c['phase'] == 'window' and choice.get(c['i']) == 'kept':
             e += 1
             presession[(e, c['u'])].add(c['i'])
+        if c.get('pre'):
+            presession[(e, c['u'])].add(c['i'])
         calls[(e, c['u'])].append((c['t'], c['op'], c['f'], c['i']))
     finishing = {(c['epoch'], c['u']) for c in run['calls']
                  if c['phase'] == 'open' and c['op'] == 't' and c['worker_done']}
@@ -660,10 +663,10 @@ def judge(run: dict, choice: dict) -> tuple[list, dict]:
     for sig, u, e, detail in viol:
         if (e, u) in finishing:
             collapsed.setdefault((e, u), []).append(sig)
-        elif (e, u) in removed_unfinished and sig.split(':')[0] in (
-                'missing-untrack-request', 'lost-call', 'state-mismatch', 'state-event-mismatch', 'duplicate-track-request',
-                'retry-after-untrack', 'missing-track-request', 'extra-untrack-request', 'untrack-request-late'):
+        elif (e, u) in removed_unfinished and sig.split(':')[0] not in (
+                'residue-after-disconnect', 'retry-too-early', 'retry-missing'):
             # the consequences of one mechanism: the TRANSFER reason of a removed unfinished transfer is never withdrawn
+            # (the missing RemoveUser also shifts every later frame of that user and session against the model)
             kept_reason.setdefault((e, u), []).append(sig)
         else:
             out.append((sig, u, e, detail))
@@ -762,12 +765,12 @@ def run_case(params: dict) -> dict:
                     raise RuntimeError(f"transfer #{n}: harness record {x['state']} but library state "
                                        f"{x['obj'].state.VALUE.name}")
 
-        def reason_call(i, user, op, how):
+        def reason_call(i, user, op, how, at=None):
             ent = tm._tracked_users.get(user)
             run['calls'].append({
-                'i': i, 't': now(), 'it': w.loop.iterations, 'op': op, 'u': user, 'f': 'TRANSFER', 'epoch': st['epoch'],
-                'phase': 'open', 'after_cut': st['cut_pending'], 'entry': ent is not None, 'worker_done': False,
-                'via': how})
+                'i': i, 't': now() if at is None else at, 'it': w.loop.iterations, 'op': op, 'u': user, 'f': 'TRANSFER',
+                'epoch': st['epoch'], 'phase': 'open', 'after_cut': st['cut_pending'], 'entry': ent is not None,
+                'worker_done': False, 'via': how, 'pre': at is not None})
             runner.add_obs(res, 'transfer_reason_transitions')
 
         rx_waiters: list = []
@@ -832,8 +835,14 @@ def run_case(params: dict) -> dict:
             snapshot('after-disconnect')
             persisting = [u for u in USERS if has_unfinished(u)]
             for n, u in enumerate(persisting):
-                # the reason outlived the session: it counts again for the session that is about to begin
-                reason_call(1000 + 10 * st['epoch'] + n, u, 't', 'relogin')
+                # the reason outlived the session: it counts again for the session that is about to begin; if a
+                # management cycle has already re-added it while there was no session (both readings are accepted,
+                # the snapshot tells which one happened) it counts from the close on and its attempts are invisible
+                readded = run['snaps'][-1]['users'][u]['flags'] == ['TRANSFER']
+                reason_call(1000 + 10 * st['epoch'] + n, u, 't', 'relogin',
+                            at=run['epoch_start'][st['epoch']] if readded else None)
+                if readded:
+                    runner.add_obs(res, 'transfer_reason_readded_while_disconnected')
             await h.call(client.network.connect_server())
             await h.call(client.login())
             st['connected'] = True
@@ -976,20 +985,48 @@ def run_case(params: dict) -> dict:
             snapshot('quiescence')
 
         # -- collect ------------------------------------------------------------------------------
+        from aioslsk.protocol.messages import ServerMessage
+        from ..simloop import T0
+
+        def written_at(sess) -> list:
+            """Moments at which the client handed its AddUser / RemoveUser frames for u1/u2 to the connection (tap on
+            the simulated socket; one write per message, TCP is FIFO): the k-th written is the k-th received."""
+            out = []
+            for t, d, data in sess.writer.transport.conn.wlog:
+                if d != 'a2b':
+                    continue
+                try:
+                    m = ServerMessage.deserialize_request(data)
+                except Exception:  # noqa  (not a whole message: no refinement)
+                    return []
+                if isinstance(m, (AddUser.Request, RemoveUser.Request)) and m.username in USERS:
+                    out.append((round(t - T0 - t_base, 6), type(m), m.username))
+            return out
+
         my_sessions = [x for x in w.server.sessions if x.username == ME]
         frames: dict = {}
         for e, sess in enumerate(my_sessions):
             per: dict = {}
             counters = {u: 0 for u in USERS}
+            sent = written_at(sess)
+            k = 0
             for t, m in sess.frames:
-                if isinstance(m, AddUser.Request) and m.username in USERS:
+                if not (isinstance(m, (AddUser.Request, RemoveUser.Request)) and m.username in USERS):
+                    continue
+                # judged on the frames the server received; their time is the moment the client sent them
+                arrived = round(t - t_base, 6)
+                t_sent = arrived
+                if k < len(sent) and sent[k][1] is type(m) and sent[k][2] == m.username and sent[k][0] <= arrived:
+                    t_sent = sent[k][0]
+                k += 1
+                if isinstance(m, AddUser.Request):
                     lst = answers.get((sess.no, m.username), [])
                     n = counters[m.username]
                     counters[m.username] += 1
                     per.setdefault(m.username, []).append(
-                        {'t': round(t - t_base, 6), 'k': 'A', 'beh': lst[n] if n < len(lst) else '?'})
-                elif isinstance(m, RemoveUser.Request) and m.username in USERS:
-                    per.setdefault(m.username, []).append({'t': round(t - t_base, 6), 'k': 'R'})
+                        {'t': t_sent, 'arrived': arrived, 'k': 'A', 'beh': lst[n] if n < len(lst) else '?'})
+                else:
+                    per.setdefault(m.username, []).append({'t': t_sent, 'arrived': arrived, 'k': 'R'})
             frames[e] = per
         run['frames'] = frames
         run['epochs'] = st['epoch'] + (1 if 'stuck' in run else 0)
